@@ -77,6 +77,13 @@ where
           s_complete.complete();
         },
       ));
+      // the subscriber may have left while it received the latest value:
+      // the inner subject must not keep holding it
+      if !s.is_subscribed() {
+        if let Some(sbsc) = &*sbsc.read().unwrap() {
+          sbsc.unsubscribe();
+        }
+      }
     })
   }
 }
